@@ -1,8 +1,4 @@
-# reg and TB_COMMON are injected by lib/props.py
-CODEC_TB = TB_COMMON + [
-    "Codec/Sem.v: the reading of the generator template (binary.Read/Write on bytes.Buffer, SetLen allocation, NewX, Octet[:Len] slicing) as decode_def/encode_def; validated on every run by ~10^4 decode/encode/dispatch cases replayed on the Coq functions",
-    "canon_ok: the Go functions equal canon_dec/canon_enc of the extracted definition (kernel-evaluated) -- a harmless rewrite of a generated function breaks it",
-    "pinned Spec/*.v tables (message types, element tables) transcribed from TS 24.501"]
+# reg, TB_COMMON and CODEC_TB are injected by lib/props.py
 reg(id="C01",
     gen=["msgs", "accessors"],
     harness_cmd="c01",
